@@ -246,8 +246,16 @@ func (w *EvalRuleCondition) Do(ctx *Context, loc *Location) {
 
 	for _, bs := range qr.Bss {
 		for _, action := range w.Parent.Rule.Actions {
+			// Each action gets its own bindings.  Executing an
+			// action writes to them (see maybeCopyEvent), and
+			// a rule's actions run concurrently unless the rule
+			// asks for serial actions.
+			abs := make(Bindings, len(bs))
+			for p, v := range bs {
+				abs[p] = v
+			}
 			child := &ExecRuleAction{
-				Bindings: bs,
+				Bindings: abs,
 				Act:      Action(action),
 				Parent:   w,
 			}
